@@ -26,6 +26,7 @@ def ragged(name, maxval):
     P = z3.Function(E.fresh(name + '.val'), V.isort(), V.isort(), V.isort())
     r, c = V.ivar(E.fresh('r')), V.ivar(E.fresh('c'))
     E.axioms.append(z3.And(R.t >= 0, R.t <= BIG))
+    E.var_bounds[R.t.get_id()] = (0, BIG)
     E.axioms.append(z3.ForAll([r], z3.And(W(r) >= 0, W(r) <= BIG), patterns=[W(r)]))
     E.axioms.append(z3.ForAll([r, c], z3.And(P(r, c) >= 0, P(r, c) <= maxval), patterns=[P(r, c)]))
     E.size_hints.append(lambda b: z3.And(R.t <= b, z3.ForAll([r], W(r) <= b)))
@@ -191,17 +192,17 @@ class MapSetCell(MapContract):
         g = K.field(a['self'], '_gfx')
         return [K.ref(a['self'])] + ([K.ref(g)] if g is not None else [])
 
-    def ensures(self, K, a, old, res):
-        if not res.returned:
-            return [('no-exception', False)]
+    def update(self, old, a):
         x, y, v = a['x'], a['y'], a['val']
         m0, g0 = old.data(a['self']), self.gfxdata(old, a)
-        out = [('map-bytes', seq_eq(K.data(a['self']),
-                                    seq_of(4096, lambda i: ite(AND(y <= 31, i == y * 128 + x), v, m0.get(i)), 'bytes')))]
+        out = [(old.ref(a['self']), seq_of(4096, lambda i: ite(AND(y <= 31, i == y * 128 + x), v, m0.get(i)), 'bytes'))]
         if g0 is not None:
-            out.append(('gfx-bytes', seq_eq(self.gfxdata(K, a), seq_of(
-                8192, lambda i: ite(AND(y > 31, i == 4096 + (y - 32) * 128 + x), v, g0.get(i)), 'bytes'))))
+            out.append((old.ref(old.field(a['self'], '_gfx')), seq_of(
+                8192, lambda i: ite(AND(y > 31, i == 4096 + (y - 32) * 128 + x), v, g0.get(i)), 'bytes')))
         return out
+
+    def ensures(self, K, a, old, res):
+        return [] if res.returned else [('no-exception', False)]
 
 
 class MapGetRectTiles(MapContract):
@@ -418,17 +419,19 @@ class SfxSetNote(SfxContract):
     def modifies(self, K, a):
         return [K.ref(a['self'])]
 
-    def ensures(self, K, a, old, res):
-        if not res.returned:
-            return [('no-exception', False)]
+    def update(self, old, a):
+        # note-is-model: given fields set, the other fields of the note and all other bytes unchanged
         d0 = old.data(a['self'])
         cur = M.word_fields(M.note_word(d0, a['id'], a['note']))
         new = [ite(SOpt.of(a[f]).isnone, c, SOpt.of(a[f]).val) for (f, _), c in zip(self.FIELDS, cur)]
         w = M.fields_word(*new)
         at = a['id'] * 68 + a['note'] * 2
-        want = seq_of(4352, lambda i: ite(i == at, w % 256, ite(i == at + 1, w // 256, d0.get(i))), 'bytes')
-        return [('note-is-model(given fields set, others and all other bytes unchanged)',
-                 seq_eq(K.data(a['self']), want))]
+        return [(old.ref(a['self']),
+                 seq_of(4352, lambda i: V.vite(i == at, lambda: w % 256, lambda: V.vite(
+                     i == at + 1, lambda: w // 256, lambda: d0.get(i))), 'bytes'))]
+
+    def ensures(self, K, a, old, res):
+        return [] if res.returned else [('no-exception', False)]
 
 
 class SfxGetProperties(SfxContract):
@@ -473,19 +476,22 @@ class SfxSetProperties(SfxContract):
     def modifies(self, K, a):
         return [K.ref(a['self'])]
 
-    def ensures(self, K, a, old, res):
-        if not res.returned:
-            return [('no-exception', False)]
+    def update(self, old, a):
+        # properties-are-model: given properties stored, all other bytes unchanged
         d0 = old.data(a['self'])
         base = a['id'] * 68 + 64
 
         def byte(i):
-            r = d0.get(i)
-            for j, f in enumerate(self.FIELDS):
-                o = SOpt.of(a[f])
-                r = ite(AND(i == base + j, NOT(o.isnone)), o.val, r)
-            return r
-        return [('properties-are-model(other bytes unchanged)', seq_eq(K.data(a['self']), seq_of(4352, byte, 'bytes')))]
+            def sel(j):
+                if j == len(self.FIELDS):
+                    return d0.get(i)
+                o = SOpt.of(a[self.FIELDS[j]])
+                return V.vite(AND(i == base + j, NOT(o.isnone)), lambda: o.val, lambda: sel(j + 1))
+            return sel(0)
+        return [(old.ref(a['self']), seq_of(4352, byte, 'bytes'))]
+
+    def ensures(self, K, a, old, res):
+        return [] if res.returned else [('no-exception', False)]
 
 
 # =============================================================== Music
